@@ -293,4 +293,6 @@ MUTATIONS += [
     dict(id="q-evidence-index-helper-cache", file=TINPUT, old="        obs = self.observation()  # (F, D)\n        obs = obs.unsqueeze(dim=1)  # (F, 1, D)", new="        self._last_batch_size = batch_size\n        obs = self.observation()  # (F, D)\n        obs = obs.unsqueeze(dim=1)  # (F, 1, D)", expect={}, quiet=True),
     dict(id="r12b-tensordot-weights-swapped", file=OLAY, old="    weight1 = weight.subgraph(in_kronecker1)\n    weight2 = weight.subgraph(in_kronecker2)", new="    weight1 = weight.subgraph(in_kronecker2)\n    weight2 = weight.subgraph(in_kronecker1)", expect={"C02": ["R12b:cirkit.backend.torch.optimization.layers.apply_dense_tensordot"]}),
     dict(id="r12b-tensordot-view-order", file=TOPT, old="        x = x.view(x.shape[0], x.shape[1], self._num_contract_units, self._num_batch_units)", new="        x = x.view(x.shape[0], x.shape[1], self._num_batch_units, self._num_contract_units).transpose(2, 3)", expect={"C02": ["R12b:cirkit.backend.torch.optimization.layers.apply_dense_tensordot"]}, allow_others=True),
+    dict(id="r11e-complex-plain-log", patch="seeded/C13b/patch.diff", expect={"C13": ["R11e:"]}),
+    dict(id="c13-requires-grad-key", patch="seeded/C13a/patch.diff", expect={"C13": ["R3d:"], "C17": ["R3d:"], "C02": ["R3d:"]}),
 ]
